@@ -27,6 +27,7 @@ def curated():
                                   CLOSE(), OPEN(DFACC_RDWR), CHECKALL(), NEWREF(0), DELDD(1), CHECKALL(), CLOSE(), OPEN(DFACC_READ), CHECKALL(), CLOSE()]))
     S.append(("reuse", [CREATE(16), PUT(0, 4), PUT(1, 2), REUSE(0), PUT(0, 6), CHECKALL(), CLOSE(), OPEN(DFACC_RDWR), CHECKALL(), REUSE(1), PUT(1, 5),
                         CHECKALL(), CLOSE(), OPEN(DFACC_READ), CHECKALL(), CLOSE()]))
+    S.append(("nocache-newblock", [CREATE(4), CACHE(0), PUT(0, 3), PUT(1, 2), PUT(2, 2), PUT(3, 1), CHECKALL(), CLOSE(), OPEN(DFACC_RDWR), CHECKALL(), NEWREF(0), CLOSE()]))
     S.append(("dup-delete-orig", [CREATE(4), PUT(0, 5), DUPDD(3, 0), DELDD(0), CHECKALL(), GET(3), CLOSE(), OPEN(DFACC_READ), CHECKALL(), GET(3), CLOSE()]))
     return S
 
